@@ -246,6 +246,8 @@ class Interp:
         self.valuation = list(valuation or [])     # [(Form, number)]: assumed numeric value of a sub-term (e.g. a length)
         self.cmp_points: set = set()               # numeric values met in decided order/equality comparisons
         self.fit_log: list = []                    # (call node, args, kwargs, depth) of every estimator.fit(...) met, in order
+        self.keep_astype = False                   # keep x.astype(t) visible in value forms instead of treating it as the identity
+        self.unroll_literal_loops = False          # execute `for row in <literal table>` row by row instead of abstracting the loop
         self.stop_at_calls: set = set()            # dotted callee names at which a top-level path is cut (counts as a return)
         self.falsy_arith: list = []                # (fi, node, operand, depth): arithmetic on a value assumed falsy (absent optional parameter)
         self.nested_raises: list = []              # raise outcomes inside inlined callees that also have returning paths
@@ -731,6 +733,15 @@ class Interp:
 
     def s_For(self, s, st, fi, depth):
         it = self.eval(s.iter, st, fi, depth)
+        if self.unroll_literal_loops and isinstance(it, TupleV) and len(it.items) <= 32 and not s.orelse \
+                and not any(isinstance(x, (ast.Break, ast.Continue)) for b in s.body for x in ast.walk(b)):
+            # a loop over a literal table is the sequence of its bodies, one per row
+            for item in it.items:
+                if not st.live:
+                    break
+                self.assign(s.target, item, st, fi, depth, s)
+                self.exec_block(s.body, st, fi, depth)
+            return
         names = self._assigned_names(s.body) | self._assigned_names([ast.Assign(targets=[s.target], value=ast.Constant(value=0), lineno=s.lineno)])
         pre = fork_env(st.env)
         self._havoc(names, st, s, "")
@@ -819,6 +830,16 @@ class Interp:
         if isinstance(test, ast.UnaryOp) and isinstance(test.op, ast.Not):
             v = self.truth(test.operand, st, fi, depth)
             return None if v is None else (not v)
+        if isinstance(test, ast.Compare) and len(test.ops) > 1:
+            # a < b < c  is  (a < b) and (b < c)
+            terms = [test.left] + list(test.comparators)
+            vals = [self.truth(ast.copy_location(ast.Compare(left=terms[i], ops=[test.ops[i]], comparators=[terms[i + 1]]), test), st, fi, depth)
+                    for i in range(len(test.ops))]
+            if any(v is False for v in vals):
+                return False
+            if all(v is True for v in vals):
+                return True
+            return None
         if isinstance(test, ast.Compare) and len(test.ops) == 1:
             op = test.ops[0]
             l = self.eval(test.left, st, fi, depth)
@@ -973,6 +994,8 @@ class Interp:
         return None
 
     def _const_of(self, v, st):
+        if isinstance(v, ClassRef):
+            return ("<class>", v.name.split(".")[-1])
         if isinstance(v, Const):
             return v.v
         if isinstance(v, Form):
@@ -980,6 +1003,8 @@ class Interp:
             if c is not None:
                 return complex(float(c[0]), float(c[1])) if c[1] != 0 else (int(c[0]) if c[0].denominator == 1 else float(c[0]))
             e = st.facts.eq.get(v.key())
+            if isinstance(e, ClassRef):
+                return ("<class>", e.name.split(".")[-1])
             if e is not None:
                 return e.v if isinstance(e, Const) else e
             w = self._valuate(v, st)
@@ -1549,9 +1574,7 @@ class Interp:
                 if v.format_spec is not None:
                     spec = self.e_JoinedStr(v.format_spec, st, fi, depth)
                 parts.append(mk_fn("fmt", [as_value(val), spec if spec is not None else NONE]))
-        if all(isinstance(p, Const) for p in parts):
-            return Const("".join(str(p.v) for p in parts))
-        return mk_fn("fstr", parts)
+        return _mk_fstr(parts)
 
     def e_FormattedValue(self, n, st, fi, depth):
         return mk_fn("fmt", [as_value(self.eval(n.value, st, fi, depth)), NONE])
@@ -1691,6 +1714,8 @@ class Interp:
             if len(parts) >= 4 and parts[2] == "gv":
                 rec.callee = name
                 return Form.atom(("fn", name, tuple(map(as_value, args)), tuple(sorted((k, as_value(v)) for k, v in kwargs.items()))))
+        if name in ("numpy.any", "numpy.all") and len(args) == 1 and not kwargs and isinstance(args[0], Const) and isinstance(args[0].v, bool):
+            return args[0]
         if name in _IDENTITY_FNS and args:
             if name in ("float", "complex", "numpy.float64") and isinstance(args[0], Const):
                 return mk_fn(name, [args[0]])
@@ -1922,10 +1947,15 @@ class Interp:
                 if attr == "values":
                     return TupleV([v for _, v in base.items], "list")
                 return TupleV([TupleV([k, v]) for k, v in base.items], "list")
+        if isinstance(base, Const) and isinstance(base.v, bool) and attr in ("any", "all") and not args:
+            return base    # a decided scalar comparison: (x < 0).any() is x < 0
         if isinstance(base, Const) and isinstance(base.v, str):
             if attr in ("lower", "upper", "strip") and not args:
                 return Const(getattr(base.v, attr)())
             if attr == "format":
+                fs = _format_as_fstr(base.v, args, kwargs)
+                if fs is not None:
+                    return fs
                 return mk_fn("strformat", [base] + [as_value(a) for a in args])
             if attr == "join" and args:
                 return mk_fn("strjoin", [base, as_value(args[0])])
@@ -1972,6 +2002,8 @@ class Interp:
             if s is not None and s.rsplit(".", 1)[-1] in ("signal", "noise", "data") and attr not in NDARRAY_API:
                 self.bad_attrs.append((fi, n, base, attr))
             if attr in _IDENTITY_METHODS:
+                if attr == "astype" and self.keep_astype:
+                    return mk_fn("astype", [base] + [as_value(a) for a in args])
                 return base
             if attr in _ARRAY_METHODS_AS_FN:
                 _, cargs, ckw = canon_call(_ARRAY_METHODS_AS_FN[attr], [base] + list(args), kwargs)
@@ -2055,6 +2087,71 @@ class Interp:
         return None
 
 
+def _format_as_fstr(template, args, kwargs):
+    """'...{}...{:.2f}'.format(a, b) in the same value form as the f-string f'...{a}...{b:.2f}' (None if not expressible)"""
+    import string
+    auto = [0]
+
+    def field(name):
+        if name == "":
+            i = auto[0]
+            auto[0] += 1
+            return args[i] if i < len(args) else None
+        if name.isdigit():
+            return args[int(name)] if int(name) < len(args) else None
+        return kwargs.get(name)
+
+    def pieces(tmpl, nested):
+        out = []
+        try:
+            parsed = list(string.Formatter().parse(tmpl))
+        except ValueError:
+            return None
+        for lit, name, spec, conv in parsed:
+            if lit:
+                out.append(Const(lit))
+            if name is None:
+                continue
+            if conv is not None:
+                return None
+            v = field(name)
+            if v is None:
+                return None
+            sp = NONE
+            if spec:
+                if nested:
+                    return None
+                sub = pieces(spec, True)
+                if sub is None:
+                    return None
+                sp = Const("".join(str(p.v) for p in sub)) if all(isinstance(p, Const) for p in sub) else mk_fn("fstr", sub)
+            out.append(mk_fn("fmt", [as_value(v), sp]))
+        return out
+    ps = pieces(template, False)
+    if ps is None:
+        return None
+    return _mk_fstr(ps)
+
+
+def _mk_fstr(parts):
+    """string built from literal text and formatted values: constant strings formatted without a spec are literal text,
+    adjacent literal pieces are one piece"""
+    out = []
+    for p in parts:
+        if isinstance(p, Form):
+            a = p.single_atom()
+            if a is not None and a[0] == "fn" and a[1] == "fmt" and isinstance(a[2][0], Const) and isinstance(a[2][0].v, str) \
+                    and isinstance(a[2][1], Const) and a[2][1].v is None:
+                p = Const(a[2][0].v)
+        if isinstance(p, Const) and out and isinstance(out[-1], Const):
+            out[-1] = Const(str(out[-1].v) + str(p.v))
+        else:
+            out.append(p)
+    if all(isinstance(p, Const) for p in out):
+        return Const("".join(str(p.v) for p in out))
+    return mk_fn("fstr", out)
+
+
 _TOWER = {"int": ("int", "numbers.Number", "numbers.Complex", "numbers.Real", "numbers.Rational", "numbers.Integral"),
           "float": ("float", "numbers.Number", "numbers.Complex", "numbers.Real"),
           "complex": ("complex", "numbers.Number", "numbers.Complex")}
@@ -2116,12 +2213,20 @@ NDARRAY_API = {
 }
 
 
+_LOAD_CACHE: dict = {}
+
+
 def _load(t):
-    import copy
-    n = copy.deepcopy(t)
+    """the assignment target as an expression (Load context).  Re-parsed from its source text: a deepcopy would follow the
+    `_parent` links and copy the whole module."""
+    k = id(t)
+    hit = _LOAD_CACHE.get(k)
+    if hit is not None and hit[0] is t:
+        return hit[1]
+    n = ast.parse(ast.unparse(t), mode="eval").body
     for x in ast.walk(n):
-        if hasattr(x, "ctx"):
-            x.ctx = ast.Load()
+        ast.copy_location(x, t)
+    _LOAD_CACHE[k] = (t, n)
     return n
 
 
